@@ -21,6 +21,8 @@ RULE = ('Hypothesis draws the chain length (2..6), local dimensions (2..3; per-s
         'preserve the 2-norm; (4) normalisation returns unit-norm states -- also under an active rank cap (separate sub-check, no value '
         'comparison there); (5) list length; component arguments keep their values (real, complex or integer-typed). '
         'Non-trivial: inhomogeneous lists, complex data, even chain length, or interaction rank 2.')
+RULE += (' ' + "Added classes: state dtype independent of the components' dtype, site-dependent lists with a uniform bulk and one defect site, weakly coupled bonds, per-bond interaction ranks, in-place update of the component arrays.")
+
 ASSUMPTIONS = [
     'oracle: scipy.linalg.expm of dense even/odd generators built by the harness; published Yoshida / Kahan-Li coefficients',
     'no truncation is active: max_rank = 200, threshold at its default 1e-12',
@@ -42,7 +44,12 @@ def split_case(draw):
     if int(np.prod(dims)) > 300:
         dims = [2] * d
     klass = draw(st.sampled_from(['generic', 'generic', 'skew', 'stochastic']))
-    return {'dims': dims, 'hom': hom, 'klass': klass, 'cplx': draw(st.booleans()) if klass != 'stochastic' else False,
+    # site-dependent LISTS whose entries are nevertheless the same arrays on every site but one (a uniform bulk with a defect)
+    uniform_bulk = (not hom) and d >= 3 and draw(st.sampled_from([False, False, True]))
+    if uniform_bulk:
+        dims = [nloc] * d if nloc ** d <= 300 else [2] * d
+    c = {'uniform_bulk': uniform_bulk, 'defect': draw(st.integers(0, d - 1))}
+    c.update({'dims': dims, 'hom': hom, 'klass': klass, 'cplx': draw(st.booleans()) if klass != 'stochastic' else False,
             'rank': draw(st.sampled_from([1, 1, 2])), 'two_d': draw(st.booleans()), 'seed': draw(gen.SEED),
             'hnorm': draw(st.sampled_from([0.05, 0.1, 0.2, 0.4])), 'steps': draw(st.integers(1, 3)),
             'scheme': draw(st.sampled_from(['lie', 'strang', 'yoshida', 'kahan_li'])),
@@ -53,7 +60,11 @@ def split_case(draw):
             'update_in_place': draw(st.sampled_from([False, False, True])),
             'weak_bond': None if hom else draw(st.sampled_from([None, None, 0, 1, 2, 3])),
             # the state's dtype need not be that of the components: a complex state under real components and the other way round
-            'state_cplx': draw(st.sampled_from([None, None, True, False])) if klass != 'stochastic' else None}
+            'state_cplx': draw(st.sampled_from([None, None, True, False])) if klass != 'stochastic' else None})
+    if uniform_bulk:
+        c['bond_ranks'] = None
+        c['weak_bond'] = None
+    return c
 
 
 def state_cplx(c):
@@ -98,7 +109,12 @@ def components(c, rng):
         Sl, Ll, Ml = [S] * d, [Ls] * d, [Ms] * d
     else:
         br = bond_ranks(c)
-        parts = [site(dims[i], br[i] if i < d - 1 else br[-1], br[i - 1] if i > 0 else br[0]) for i in range(d)]
+        if c.get('uniform_bulk'):
+            bulk = site(dims[0])
+            parts = [bulk] * d
+            parts[c['defect'] % d] = site(dims[0])
+        else:
+            parts = [site(dims[i], br[i] if i < d - 1 else br[-1], br[i - 1] if i > 0 else br[0]) for i in range(d)]
         Sl, Ll, Ml = [p[0] for p in parts], [p[1] for p in parts], [p[2] for p in parts]
         if c.get('weak_bond') is not None and c['klass'] != 'stochastic' and not intc:
             # one bond is almost decoupled: no single-site term on its left site and a diagonal (ZZ-type) interaction 1e-4 times
@@ -263,6 +279,8 @@ def body_structure(c):
         lab.add('complex')
     if state_cplx(c) != c['cplx']:
         lab.add('state_dtype_differs_from_components')
+    if c.get('uniform_bulk'):
+        lab.add('uniform_bulk_with_defect')
     if d % 2 == 0:
         lab.add('even_length')
     if c['two_d'] and c['rank'] == 1:
